@@ -32,10 +32,8 @@ SomeIntronAccepts == Len(C.blocks) = 1 /\ \E iv \in Introns(C.tx) : Accepts(iv)
 (* starts at every ATG of the first copy in any frame and runs to the next   *)
 (* stop or to the end of the fourth copy (fragments reaching that open end   *)
 (* are not reported); not reported either: digestion products of the linear  *)
-(* host transcript and canonical peptides.  Soundness is decided with small  *)
-(* variants of the host transcript on the circle; completeness only for      *)
-(* circles whose host transcript has no small variant in the input (with     *)
-(* variants the tool and this definition disagree in ways not triaged).      *)
+(* host transcript and canonical peptides.  Small variants of the host       *)
+(* transcript that lie on the circle are carried by every copy alike.        *)
 (***************************************************************************)
 Circle == CircSeqExpected(C.chrom, C.gene, C.blocks)
 (* small variants of the host transcript in circle coordinates (C.cvars) that lie inside a     *)
@@ -51,10 +49,12 @@ CircPepsOf(H, dropTail) ==
 CircPeps(dropTail) == UNION {CircPepsOf(H, dropTail) : H \in CircHaps}
 HostTx == [seq |-> C.host.seq, coding |-> C.host.coding, orfStart |-> C.host.orfStart, orfEnd |-> C.host.orfEnd,
            startNF |-> C.host.startNF, endNF |-> C.host.endNF, sec |-> ToSet(C.host.sec)]
-(* completeness is only required of circles whose host transcript has no small variant in the   *)
-(* input: with variants on the circle the tool and this definition disagree on some records in   *)
-(* ways that were not triaged (a deletion of the circle's last base, ...)                        *)
-CircRequired == CircPepsOf({}, TRUE) \ (RefPeptides(HostTx, C.cfg) \cup CanonicalPool(C.proteome, C.cfg))
+(* completeness: every compatible subset of the variants that lie inside a fragment, off its first four bases and its last *)
+(* base - the tool's (in-memory pool) lookup is strict on both sides of [fragment start + 3, fragment end); a variant on the *)
+(* fourth or the last base of a fragment is allowed (Sound) but not required                                                 *)
+UsableCStrict == {v \in UsableC : \E j \in 1..Len(C.fragIdx) : C.fragIdx[j][1] + 4 <= v.start /\ v.end < C.fragIdx[j][2]}
+CircHapsStrict == {H \in SUBSET UsableCStrict : Compatible(H, 0)}
+CircRequired == UNION {CircPepsOf(H, TRUE) : H \in CircHapsStrict} \ (RefPeptides(HostTx, C.cfg) \cup CanonicalPool(C.proteome, C.cfg))
 CircObs == {C.allobs[k] : k \in 1..Len(C.allobs)}
 CircRefsOk == \A v \in CVars : Slice(Circle, v.start, v.end) = v.ref
 
@@ -70,6 +70,6 @@ Verdict ==
   /\ Clause("intron_tolerance", (C.enough /\ C.kind = "ciRNA") => ((C.outcome = "record") = SomeIntronAccepts))
   /\ Clause("circ_variant_refs", C.cvran => CircRefsOk)
   /\ Clause("circ_peptides_sound", C.cvran => \A k \in 1..Len(C.cpeps) : C.cpeps[k] \in CircPeps(FALSE))
-  /\ Clause("circ_peptides_complete", (C.cvran /\ C.outcome = "record" /\ ~C.hostHasVars) => CircRequired \subseteq CircObs)
+  /\ Clause("circ_peptides_complete", (C.cvran /\ C.outcome = "record") => CircRequired \subseteq CircObs)
   /\ PrintT(<<"V", i, "done">>)
 =============================================================================
